@@ -161,22 +161,39 @@ func (l *Loader) resolveIncludes(path string, journal *ast.Journal, visited map[
 	result.PrimaryPath = path
 	visited[path] = true
 
+	// errors of this file's directives are attributed to it; errors that come up
+	// from included files keep their file and learn which directive led to them
+	attribute := func(errs []LoadError, directive ast.Range) []LoadError {
+		for i := range errs {
+			if errs[i].Kind == ErrorParseError {
+				continue
+			}
+			if errs[i].File == "" {
+				errs[i].File = path
+			}
+			errs[i].RootRange = directive
+		}
+		return errs
+	}
+
 	for _, inc := range journal.Includes {
 		if IsGlobPattern(inc.Path) {
 			matches, err := l.expandGlob(path, inc.Path)
 			if err != nil {
 				errors = append(errors, LoadError{
-					Kind:    ErrorFileNotFound,
-					Path:    inc.Path,
-					Message: err.Error(),
-					Range:   inc.Range,
+					Kind:      ErrorFileNotFound,
+					Path:      inc.Path,
+					Message:   err.Error(),
+					Range:     inc.Range,
+					File:      path,
+					RootRange: inc.Range,
 				})
 				continue
 			}
 
 			for _, matchPath := range matches {
 				subErrors := l.loadSingleInclude(path, matchPath, inc.Range, visited, result)
-				errors = append(errors, subErrors...)
+				errors = append(errors, attribute(subErrors, inc.Range)...)
 			}
 			continue
 		}
@@ -184,16 +201,18 @@ func (l *Loader) resolveIncludes(path string, journal *ast.Journal, visited map[
 		includePath, pathErr := ResolvePathSafe(path, inc.Path)
 		if pathErr != nil {
 			errors = append(errors, LoadError{
-				Kind:    ErrorPathTraversal,
-				Path:    inc.Path,
-				Message: fmt.Sprintf("path traversal detected: %s", inc.Path),
-				Range:   inc.Range,
+				Kind:      ErrorPathTraversal,
+				Path:      inc.Path,
+				Message:   fmt.Sprintf("path traversal detected: %s", inc.Path),
+				Range:     inc.Range,
+				File:      path,
+				RootRange: inc.Range,
 			})
 			continue
 		}
 
 		subErrors := l.loadSingleInclude(path, includePath, inc.Range, visited, result)
-		errors = append(errors, subErrors...)
+		errors = append(errors, attribute(subErrors, inc.Range)...)
 	}
 
 	// loaded; no longer one of the files currently being included
